@@ -541,17 +541,21 @@ def resize_dim(spec, d, size):
 
 def gen_ext(rng):
     """one case of the ops the model does not cover: (kind, specs, args)"""
-    kind = rng.choice(["repeat", "repeat_interleave", "gather", "masked_select", "stack", "cat", "stack_out", "cat_out"])
+    kind = rng.choice(["repeat", "repeat_interleave", "gather", "masked_select", "stack", "cat", "stack_out", "cat_out", "cat_lazy_out"])
+    wild = rng.random() < 0.2      # out-of-range dims / negative repeats
     # (repeat on a 0-d batch would be `td.repeat()` with no repeats: torch's varargs API has no such spelling)
     rank = rng.choice([0, 1, 2, 2, 3, 3, 4]) if kind in ("stack", "stack_out") else rng.choice([1, 2, 2, 3, 3, 4])
     bs = tuple(rng.choice(DIMS if rng.random() < 0.35 else (1, 2, 3)) for _ in range(rank))
     spec = gen_tree(rng, bs, named=rng.random() < 0.45, allow_empty=False)
     n = rank
     if kind == "repeat":
-        return kind, [spec], (tuple(rng.choice([0, 1, 1, 2, 3]) for _ in range(n)),)
+        reps = [rng.choice([0, 1, 1, 2, 3]) for _ in range(n)]
+        if wild:
+            reps[rng.randrange(n)] = -1
+        return kind, [spec], (tuple(reps),)
     if kind == "repeat_interleave":
-        d = rng.randrange(-n, n)
-        return kind, [spec], (rng.choice([0, 1, 2, 3]), rng.choice([d, d, None]))
+        d = rng.randint(-n - 2, n + 1) if wild else rng.randrange(-n, n)
+        return kind, [spec], (rng.choice([-1, 0, 1, 2]) if wild else rng.choice([0, 1, 2, 3]), d if wild else rng.choice([d, d, None]))
     if kind == "gather":
         d = rng.randrange(-n, n)
         dd = d + n if d < 0 else d
@@ -566,11 +570,20 @@ def gen_ext(rng):
         return kind, [spec], (mask,)
     k = rng.choice([1, 2, 2, 3, 4])
     if kind in ("stack", "stack_out"):
-        d = rng.randint(-n - 1, n)
+        d = rng.randint(-n - 3, n + 2) if wild else rng.randint(-n - 1, n)
         return kind, [spec] * k, (d,)
-    d = rng.randrange(-n, n)
+    if kind == "cat_lazy_out":
+        spec = strip_names(spec)
+        bs2 = tuple(max(x, 1) for x in bs)
+        spec = gen_tree(rng, bs2, named=False, nested=False, allow_empty=False)
+        d = rng.randrange(-n, n)
+        dd = d + n if d < 0 else d
+        specs = [resize_dim(spec, dd, rng.choice([1, 2, 3])) for _ in range(k)]
+        sd = rng.randrange(n)
+        return kind, specs, (d, sd)
+    d = rng.randint(-n - 2, n + 1) if wild else rng.randrange(-n, n)
     dd = d + n if d < 0 else d
-    specs = [resize_dim(spec, dd, rng.choice([0, 1, 2, 3])) for _ in range(k)]
+    specs = [resize_dim(spec, dd % max(n, 1), rng.choice([0, 1, 2, 3])) for _ in range(k)]
     return kind, specs, (d,)
 
 
@@ -582,6 +595,8 @@ def ext_names(kind, names, n, args):
     if kind in ("stack", "stack_out"):
         d = args[0] + n + 1 if args[0] < 0 else args[0]
         return list(names[:d]) + [None] + list(names[d:])
+    if kind == "cat_lazy_out":
+        return list(names)
     return None
 
 
@@ -605,6 +620,16 @@ def oracle_ext(run, kind, specs, args, site="shape_op_ext"):
         if kind == "masked_select":
             return x.masked_select(args[0]) if not isinstance(x, torch.Tensor) else x[args[0]]
         f = torch.stack if kind.startswith("stack") else torch.cat
+        if kind == "cat_lazy_out":
+            if isinstance(x, torch.Tensor):
+                return torch.cat(list(objs), args[0])
+            from tensordict import LazyStackedTensorDict
+            sd = args[1]
+            lz = [LazyStackedTensorDict.lazy_stack(list(o.unbind(sd)), sd) for o in objs]
+            dense = torch.cat(list(objs), args[0])
+            out = LazyStackedTensorDict.lazy_stack([t.apply(lambda v: torch.zeros_like(v)) for t in dense.unbind(sd)], sd)
+            torch.cat(lz, args[0], out=out)
+            return out.contiguous()
         if use_out:
             out = f(list(objs), args[0]).clone()
             if not isinstance(out, torch.Tensor):
@@ -627,6 +652,16 @@ def oracle_ext(run, kind, specs, args, site="shape_op_ext"):
         if terr is None:
             if kind == "gather" and args[1].numel() == 0:
                 run.count("ext.stricter_rejection", "gather with an empty index ('Cannot use torch.gather with an empty index')")
+                run.oracle_ok(site)
+                return
+            if kind == "repeat" and any(r < 0 for r in args[0]):
+                # torch only "accepts" a negative repeat when the product with a zero-sized dim happens to be 0
+                run.count("ext.stricter_rejection", "negative repeats")
+                run.oracle_ok(site)
+                return
+            if kind in ("cat", "cat_out") and not (-n <= args[0] < n):
+                # torch.cat skips 1-D empty operands (legacy) and then never looks at dim
+                run.count("ext.stricter_rejection", "cat dim out of range on all-empty operands")
                 run.oracle_ok(site)
                 return
             run.oracle_fail(site, case, f"tensordict raises {type(ierr).__name__}: {str(ierr)[:120]} but torch accepts", f"{kind}:rejects-torch-accepts:{type(ierr).__name__}")
@@ -656,7 +691,7 @@ def oracle_ext(run, kind, specs, args, site="shape_op_ext"):
 
 
 def check_ext_entries(res, specs, n, kind, args, ref, prefix):
-    multi = kind in ("stack", "cat", "stack_out", "cat_out")
+    multi = kind in ("stack", "cat", "stack_out", "cat_out", "cat_lazy_out")
     for j, (k, e) in enumerate(specs[0][3]):
         v = res.get(k)
         es = [s[3][j][1] for s in specs]
